@@ -70,14 +70,15 @@ PROPS = {
         'not_decided': ['Python parsing semantics of the produced text beyond the enumerated cases'],
     },
     'C05': {
-        'families': ['contracts.sigdiff', 'contracts.native'],
+        'families': ['contracts.sigdiff', 'contracts.sigdefaults', 'contracts.native'],
         'level': 'proof',
         'technique': 'contract-based deductive verification + solver-checked lemmas over the contracts; bounded native stand-in for the closure clause',
         'text': 'FieldSignature.get_attr_value/__eq__/diff against abstract views (diff lists exactly the attributes whose '
                 'values differ after applying class defaults, plus the type/relation markers); lemmas: diff(s,s) empty, '
                 '== implies empty diff both ways, and the converse (fails: known finding).',
-        'level_note': 'Trusted: pyvc engine/encoding; the _ATTRIBUTE_DEFAULTS lookup and the Django field-type comparison as '
-                      'uninterpreted functions; attribute values as opaque atoms with == as identity of the value. The closure '
+        'level_note': 'Trusted: pyvc engine/encoding; the Django field-type comparison as an uninterpreted function; the '
+                      '_ATTRIBUTE_DEFAULTS lookup is uninterpreted inside diff/get_attr_value and separately verified against the '
+                      'real table (get_attr_default: own-type default over generic over None, contracts.sigdefaults); attribute values as opaque atoms with == as identity of the value. The closure '
                       'clause (hinted evolution resolves the change) and model/app/project levels are decided by the bounded '
                       'native suite only, labelled bounded.',
         'not_decided': ['closure lemma diff -> hint -> simulate at model/app/project level (bounded stand-in only)'],
@@ -118,12 +119,13 @@ PROPS = {
         'not_decided': ['that database foreign keys point at the renamed table/column and PRAGMA foreign_key_check passes'],
     },
     'C12': {
-        'families': ['contracts.sigsim'],
+        'families': ['contracts.sigsim', 'contracts.sigdefaults'],
         'level': 'proof',
         'technique': 'contract-based deductive verification: raising postconditions + gate obligation, VCs from the real AST, z3/cvc5',
         'text': 'Gate: _check_simulation returns True only with an empty residual diff, False only when simulation is impossible, '
                 'otherwise raises. Raising postconditions of Simulation.get_*_sig/fail and of AddField/ChangeField/DeleteField.simulate '
-                '(missing app/model/field, existing field, primary key, non-null without initial). Effect obligation: the prepare chain '
+                '(missing app/model/field, existing field, primary key, non-null without initial). The defaults lookup the residual diff '
+                'relies on (get_attr_default) against the real table. Effect obligation: the prepare chain '
                 'contains no SQL-executing call; only CannotSimulate is swallowed.',
         'level_note': "Trusted: pyvc engine/encoding; Django field-type comparison (_get_field_type_change) as an uninterpreted predicate; "
                       "issubclass(field_type, ManyToManyField) uninterpreted; the effect obligations are syntactic (AST) checks. "
